@@ -12,6 +12,20 @@ structure StOk (sk : Skeleton) : Prop where
   handsRes : sk.stDecoderHandsResponses = true
   errFirst : sk.stDecodeErrBeforeClose = true
   exits    : sk.stDecoderExitsOnErr = true
+  /-- the envelope is declared inside the decode loop: what the decoder hands over is what the
+      frame just decoded carried (needed by the FIFO statements `SInv.reqs` / `SInv.ress`) -/
+  fresh    : sk.stMsgFreshPerIteration = true
+  /-- `decodeDone` is closed once per exit: no surplus close when the goroutine leaves (needed by
+      `SInv.nocrash`) -/
+  closedOnce : sk.stDoneClosedOncePerExit = true
+
+theorem decoded_fresh {sk : Skeleton} (h : sk.stMsgFreshPerIteration = true) (c env : Envelope) :
+    decoded sk c env = env := by
+  simp [decoded, h]
+
+theorem leave_once {sk : Skeleton} (h : sk.stDoneClosedOncePerExit = true) (s : State) :
+    leave sk s = s := by
+  simp [leave, h]
 
 /-! ### list helpers -/
 
@@ -59,36 +73,56 @@ structure SInv (inp0 : List (Option Envelope)) (s : State) : Prop where
 theorem sinv_init (inp0 : List (Option Envelope)) : SInv inp0 (init inp0) := by
   refine ⟨?_, ?_, ?_, ?_, ?_, ?_, ?_, ?_, ?_, ?_, ?_, ?_, ?_⟩ <;> simp [init, pendReq, pendRes, Dec.live]
 
-theorem sinv_step (sk : Skeleton) (ok : StOk sk) (inp0 : List (Option Envelope)) (a : Act)
-    {s s' : State} (hi : SInv inp0 s) (hs : step sk s a = some s') : SInv inp0 s' := by
-  obtain ⟨h1, h2, h3, h4⟩ := ok
+theorem sinv_step_decRead (sk : Skeleton) (ok : StOk sk) (inp0 : List (Option Envelope))
+    {s s' : State} (hi : SInv inp0 s) (hs : step sk s .decRead = some s') : SInv inp0 s' := by
+  obtain ⟨h1, h2, h3, h4, h5, h6⟩ := ok
   obtain ⟨i1, i2, i3, i4, i5, i6, i7, i8, i9, i10, i11, i12, i13⟩ := hi
-  cases a <;> simp only [step] at hs
-  case decRead =>
+  simp only [step, decoded_fresh h5, h5, if_true] at hs
+  split at hs
+  · next hc =>
+    obtain ⟨hc1, hc2⟩ := hc
+    have hE : s.decodeErr = none ∧ s.decodeDone = false := i6 (by rw [hc2]; rfl)
     split at hs
-    · next hc =>
-      obtain ⟨hc1, hc2⟩ := hc
-      have hE : s.decodeErr = none ∧ s.decodeDone = false := i6 (by rw [hc2]; rfl)
-      split at hs
-      · simp at hs
-      · next env rest hinp =>
-        simp at hs; subst hs
-        rcases env with ⟨_ | p, _ | q⟩ <;> simp only [afterDecode, h1, h2, if_true] <;>
-          refine ⟨?_, ?_, ?_, ?_, ?_, ?_, ?_, ?_, ?_, ?_, ?_, ?_, ?_⟩ <;> intros <;>
-            (try simp only [reqsOf_snoc_some, ressOf_snoc_some, List.all_append]) <;>
-            grind [pendReq, pendRes, Dec.live]
-      · next rest hinp =>
-        simp at hs; subst hs
-        refine ⟨?_, ?_, ?_, ?_, ?_, ?_, ?_, ?_, ?_, ?_, ?_, ?_, ?_⟩ <;> intros <;>
-            (try simp only [reqsOf_snoc_none, ressOf_snoc_none, List.dropLast_concat, List.getLast?_concat,
-               List.length_append, List.length_singleton]) <;>
-            grind [pendReq, pendRes, Dec.live]
     · simp at hs
+    · next env rest hinp =>
+      simp at hs; subst hs
+      rcases env with ⟨_ | p, _ | q⟩ <;> simp only [afterDecode, h1, h2, if_true] <;>
+        refine ⟨?_, ?_, ?_, ?_, ?_, ?_, ?_, ?_, ?_, ?_, ?_, ?_, ?_⟩ <;> intros <;>
+          (try simp only [reqsOf_snoc_some, ressOf_snoc_some, List.all_append]) <;>
+          grind [pendReq, pendRes, Dec.live]
+    · next rest hinp =>
+      simp at hs; subst hs
+      refine ⟨?_, ?_, ?_, ?_, ?_, ?_, ?_, ?_, ?_, ?_, ?_, ?_, ?_⟩ <;> intros <;>
+          (try simp only [reqsOf_snoc_none, ressOf_snoc_none, List.dropLast_concat, List.getLast?_concat,
+             List.length_append, List.length_singleton]) <;>
+          grind [pendReq, pendRes, Dec.live]
+  · simp at hs
+
+/-- the decoder's ways out (`decFinish`, `decAbort`): here `closedOnce` is what keeps `crashed = false` -/
+theorem sinv_step_exit (sk : Skeleton) (ok : StOk sk) (inp0 : List (Option Envelope)) (a : Act)
+    (ha : a = .decFinish ∨ ∃ c, a = .decAbort c)
+    {s s' : State} (hi : SInv inp0 s) (hs : step sk s a = some s') : SInv inp0 s' := by
+  obtain ⟨h1, h2, h3, h4, h5, h6⟩ := ok
+  obtain ⟨i1, i2, i3, i4, i5, i6, i7, i8, i9, i10, i11, i12, i13⟩ := hi
+  rcases ha with rfl | ⟨c, rfl⟩ <;> simp only [step, leave_once h6, h3, h4, if_true] at hs
   all_goals (repeat' split at hs) <;> (try simp at hs) <;> (try subst hs)
   all_goals
     refine ⟨?_, ?_, ?_, ?_, ?_, ?_, ?_, ?_, ?_, ?_, ?_, ?_, ?_⟩ <;> intros <;>
       grind [pendReq, pendRes, closeDone, abortWith, Dec.live]
 
+theorem sinv_step (sk : Skeleton) (ok : StOk sk) (inp0 : List (Option Envelope)) (a : Act)
+    {s s' : State} (hi : SInv inp0 s) (hs : step sk s a = some s') : SInv inp0 s' := by
+  cases a
+  case decRead => exact sinv_step_decRead sk ok inp0 hi hs
+  case decFinish => exact sinv_step_exit sk ok inp0 _ (Or.inl rfl) hi hs
+  case decAbort c => exact sinv_step_exit sk ok inp0 _ (Or.inr ⟨c, rfl⟩) hi hs
+  all_goals
+    obtain ⟨i1, i2, i3, i4, i5, i6, i7, i8, i9, i10, i11, i12, i13⟩ := hi
+    simp only [step] at hs
+    (repeat' split at hs) <;> (try simp at hs) <;> (try subst hs)
+  all_goals
+    refine ⟨?_, ?_, ?_, ?_, ?_, ?_, ?_, ?_, ?_, ?_, ?_, ?_, ?_⟩ <;> intros <;>
+      grind [pendReq, pendRes, Dec.live]
 theorem reach_sinv (sk : Skeleton) (ok : StOk sk) {inp0 : List (Option Envelope)} {s : State}
     (h : Reach sk inp0 s) : SInv inp0 s := by
   induction h with
@@ -125,10 +159,10 @@ theorem done_signalled_step_dec (sk : Skeleton) (ok : StOk sk)
     {inp0 : List (Option Envelope)} (a : Act) (ha : a.ofDecoder = true)
     {s s' : State} (hi : SInv inp0 s) (hs : step sk s a = some s') :
     DoneSignalled s' := by
-  obtain ⟨h1, h2, h3, h4⟩ := ok
+  obtain ⟨h1, h2, h3, h4, h5, h6⟩ := ok
   have hf := hi.failing
   unfold DoneSignalled
-  cases a <;> simp [Act.ofDecoder] at ha <;> simp only [step] at hs
+  cases a <;> simp [Act.ofDecoder] at ha <;> simp only [step, decoded_fresh h5, leave_once h6] at hs
   case decRead =>
     split at hs
     · next hc =>
@@ -349,6 +383,11 @@ theorem abortWith_dec (c : Bool) (s : State) : (abortWith c s).dec = s.dec := by
   · exact closeDone_dec _
   · rfl
 
+theorem leave_dec (sk : Skeleton) (s : State) : (leave sk s).dec = s.dec := by
+  unfold leave; split
+  · rfl
+  · exact closeDone_dec _
+
 /-- the decoder is not past the close, and either it can always leave a hand-off (guarded and
     the link context is done) or both readers are there to take what it hands over -/
 def Ready (sk : Skeleton) (s : State) : Prop :=
@@ -364,11 +403,11 @@ theorem hand_progress (sk : Skeleton) {s : State} (hR : Ready sk s)
   rcases hcase with ⟨hg, hx⟩ | ⟨hw1, hw2⟩
   · rcases hd with ⟨p, n, hd⟩ | ⟨q, hd⟩
     · refine leads_step sk (.decAbort sk.stAbortClosesDone)
-        (s1 := abortWith sk.stAbortClosesDone { s with dec := .done, lostReq := [p], lostRes := n.toList })
-        (by simp [step, hc, hg, hx, hd]) (leads_refl sk (Or.inl (abortWith_dec _ _)))
+        (s1 := leave sk (abortWith sk.stAbortClosesDone { s with dec := .done, lostReq := [p], lostRes := n.toList }))
+        (by simp [step, hc, hg, hx, hd]) (leads_refl sk (Or.inl (by rw [leave_dec, abortWith_dec])))
     · refine leads_step sk (.decAbort sk.stAbortClosesDone)
-        (s1 := abortWith sk.stAbortClosesDone { s with dec := .done, lostRes := [q] })
-        (by simp [step, hc, hg, hx, hd]) (leads_refl sk (Or.inl (abortWith_dec _ _)))
+        (s1 := leave sk (abortWith sk.stAbortClosesDone { s with dec := .done, lostRes := [q] }))
+        (by simp [step, hc, hg, hx, hd]) (leads_refl sk (Or.inl (by rw [leave_dec, abortWith_dec])))
   · have hres : ∀ (s1 : State) (q : Payload), s1.crashed = false → s1.decodeDone = false →
         s1.reqRd = .waiting → s1.resRd = .waiting → s1.dec = .handRes q → s1.inp = s.inp →
         Leads sk s1 (fun s' => s'.dec = .done ∨ (s'.dec = .reading ∧ s'.inp = s.inp ∧ Ready sk s')) := by
@@ -404,11 +443,12 @@ theorem reading_leads_done (sk : Skeleton) (ok : StOk sk) :
       refine leads_step sk .decFinish
         (s1 := { s with inp := rest, consumed := s.consumed ++ [none], dec := .done,
                         decodeErr := some (.decode s.consumed.length), decodeDone := true })
-        (by simp [step, hc, ok.errFirst, ok.exits, closeDone, hdd]) (leads_refl sk rfl)
+        (by simp [step, hc, ok.errFirst, ok.exits, closeDone, hdd, leave_once ok.closedOnce]) (leads_refl sk rfl)
     | some env =>
       have hn' : none ∈ rest := by simpa using hn
       let s1 : State := { s with inp := rest, consumed := s.consumed ++ [some env], dec := afterDecode sk env }
-      have hs1 : step sk s .decRead = some s1 := by simp [step, hc, hd, hinp, s1]
+      have hs1 : step sk s .decRead = some s1 := by
+        simp [step, hc, hd, hinp, s1, decoded_fresh ok.fresh, ok.fresh]
       have hR1 : Ready sk s1 := ⟨hc, hdd, hcase⟩
       refine leads_step sk .decRead hs1 ?_
       have hcases : s1.dec = .reading ∨ (∃ p n, s1.dec = .handReq p n) ∨ (∃ q, s1.dec = .handRes q) := by
@@ -451,7 +491,8 @@ theorem decoder_can_finish_gen (sk : Skeleton) (ok : StOk sk) {inp0 : List (Opti
       | false => rfl
       | true => have := (hi.closed_dec h).1; rw [hd] at this; cases this
     exact leads_step sk .decFinish (s1 := { s with dec := .done, decodeDone := true })
-      (by simp [step, hi.nocrash, hd, ok.errFirst, ok.exits, closeDone, hdd]) (leads_refl sk rfl)
+      (by simp [step, hi.nocrash, hd, ok.errFirst, ok.exits, closeDone, hdd, leave_once ok.closedOnce])
+      (leads_refl sk rfl)
   | handReq p n =>
     have hdd : s.decodeDone = false := by
       cases h : s.decodeDone with
